@@ -72,7 +72,62 @@ theorem ptr_parse_rejects (c : Nat) (rest : Bytes) (hc : c ≠ 47) (h0 : c ≠ 0
     · rename_i heq; simp only [List.cons.injEq] at heq; exact absurd heq.1 hc
     · rfl
 
-/-- **look-ups agree and equal RFC 6901**: for a well-formed document and tokens that are NUL free and not the
+/-- **look-ups on the two forms agree for every pointer** (wildcard tokens included): `jbl_at2` on the binary
+    form returns the holder of what `jbn_at2` returns on the tree, and fails exactly when it fails. -/
+theorem at_forms_agree (v : JVal) (jp : List Bytes) (hw : wf v = true) (hs : small v)
+    (hlen : jp.length ≤ Gen.Binn.JBL_MAX_NESTING_LEVEL) :
+    ∃ b, fromNode v = some b ∧ (atBinn2 b jp).toOption = (atTree2 v jp).toOption.map viewOf := by
+  obtain ⟨bs, he⟩ := enc_isSome v hw
+  refine ⟨viewOf v, fromNode_eq_viewOf v hw, ?_⟩
+  rw [atTree2_eq_btGet v jp hlen]
+  cases jp with
+  | nil => simp [atBinn2, btGet_nil, Except.toOption]
+  | cons seg rest =>
+    obtain ⟨st', h, o⟩ := tvNode_on (seg :: rest) hlen v 0 seg rest ⟨0, false, none⟩ rfl rfl rfl (Nat.le_refl _)
+    by_cases hc : isContainer v = true
+    · have hv := viewOf_cont v bs hc he
+      have hsim := sim_node (seg :: rest) hlen v (bs.length + 1) 0 bs ⟨0, false, none⟩ st' hw he (hs bs he)
+        (by have := depth_le v bs he; omega) hc (Nat.zero_le _) h
+      have hpi : ∃ hd, iterInit bs = some hd := by
+        cases v with
+        | arr xs =>
+          simp only [enc, Option.map_eq_some_iff] at he
+          obtain ⟨body, hb, rfl⟩ := he
+          have := hs (container Gen.Binn.BINN_LIST xs.length body) (by simp [enc, hb])
+          have hl2 := encList_length xs body hb
+          have hcl := container_length Gen.Binn.BINN_LIST xs.length body
+          obtain ⟨h', hi, _, _⟩ := iterInit_container Gen.Binn.BINN_LIST xs.length body (Or.inl rfl) (by omega) (by omega)
+          exact ⟨_, hi⟩
+        | obj ms =>
+          simp only [enc, Option.map_eq_some_iff] at he
+          obtain ⟨body, hb, rfl⟩ := he
+          have := hs (container Gen.Binn.BINN_OBJECT ms.length body) (by simp [enc, hb])
+          have hl2 := encMembers_length [] ms body hb
+          have hcl := container_length Gen.Binn.BINN_OBJECT ms.length body
+          obtain ⟨h', hi, _, _⟩ := iterInit_container Gen.Binn.BINN_OBJECT ms.length body (Or.inr rfl) (by omega) (by omega)
+          exact ⟨_, hi⟩
+        | _ => simp [isContainer] at hc
+      obtain ⟨hd', hi⟩ := hpi
+      rw [hv]
+      simp only [atBinn2, List.length_cons, Nat.succ_ne_zero, if_false, hi]
+      have : (VS.map viewOf ⟨0, false, none⟩ : VS BVal) = ⟨0, false, none⟩ := rfl
+      rw [this] at hsim
+      rw [hsim]
+      cases hb : btGet v (seg :: rest) with
+      | some r => rw [hb] at o; simp only [Outcome] at o; simp [VS.map, o.2, Except.toOption]
+      | none => rw [hb] at o; simp only [Outcome] at o; simp [VS.map, o.2.1, Except.toOption]
+    · have hr : btGet v (seg :: rest) = none := btGet_scalar v seg rest (by simpa using hc)
+      rw [hr]
+      cases v <;> simp [isContainer] at hc <;> simp [viewOf, atBinn2, Except.toOption]
+
+/-- the tree look-up is a depth-first first-match search in which `*` matches any member or element
+    (`Ptr.btGet`); with `at_forms_agree` this also describes the binary form -/
+theorem at_tree_first_match (v : JVal) (jp : List Bytes) (hlen : jp.length ≤ Gen.Binn.JBL_MAX_NESTING_LEVEL) :
+    (atTree2 v jp).toOption = btGet v jp := by
+  rw [atTree2_eq_btGet v jp hlen]
+  cases btGet v jp <;> rfl
+
+/-- **look-ups equal RFC 6901**: for a well-formed document and tokens that are NUL free and not the
     wildcard (at most `JBL_MAX_NESTING_LEVEL` of them), `jbn_at2` on the tree and `jbl_at2` on the binary form
     both return the element RFC 6901 designates — the binary side as the holder (`viewOf`) of that element —
     and both report an error (no element) exactly when RFC 6901 designates nothing. -/
@@ -81,57 +136,39 @@ theorem at_agree (v : JVal) (jp : List Bytes) (hw : wf v = true) (hs : small v)
     ∃ b, fromNode v = some b ∧
       (atTree2 v jp).toOption = rfcGet v jp ∧
       (atBinn2 b jp).toOption = (rfcGet v jp).map viewOf := by
+  obtain ⟨b, hb, hf⟩ := at_forms_agree v jp hw hs hlen
+  have ht : (atTree2 v jp).toOption = rfcGet v jp := by
+    rw [at_tree_first_match v jp hlen, bt_rfc v jp hw hj]
+  exact ⟨b, hb, ht, by rw [hf, ht]⟩
+
+/-- what the caller of `jbl_at2` gets back: converting the returned holder with `jbl_to_node` yields exactly the
+    element RFC 6901 designates (so look-up and conversion commute) -/
+theorem at_result_to_node (v r : JVal) (jp : List Bytes) (hw : wf v = true) (hs : small v)
+    (hlen : jp.length ≤ Gen.Binn.JBL_MAX_NESTING_LEVEL) (hj : ∀ seg ∈ jp, segOk seg) (hr : rfcGet v jp = some r) :
+    ∃ b h, fromNode v = some b ∧ atBinn2 b jp = .ok h ∧ toNode (fuelOf h) h = some r := by
+  obtain ⟨b, hb, _, h2⟩ := at_agree v jp hw hs hlen hj
   obtain ⟨bs, he⟩ := enc_isSome v hw
-  refine ⟨viewOf v, fromNode_eq_viewOf v hw, ?_, ?_⟩
-  · rw [atTree2_eq_btGet v jp hlen, bt_rfc v jp hw hj]
-    cases rfcGet v jp <;> rfl
-  · cases jp with
-    | nil => simp [atBinn2, rfcGet, Except.toOption]
-    | cons seg rest =>
-      have hbt := bt_rfc v (seg :: rest) hw hj
-      obtain ⟨st', h, o⟩ := tvNode_on (seg :: rest) hlen v 0 seg rest ⟨0, false, none⟩ rfl rfl rfl (Nat.le_refl _)
-      by_cases hc : isContainer v = true
-      · have hv := viewOf_cont v bs hc he
-        have hsim := sim_node (seg :: rest) hlen v (bs.length + 1) 0 bs ⟨0, false, none⟩ st' hw he (hs bs he)
-          (by have := depth_le v bs he; omega) hc (Nat.zero_le _) h
-        have hpi : ∃ hd, iterInit bs = some hd := by
-          cases v with
-          | arr xs =>
-            simp only [enc, Option.map_eq_some_iff] at he
-            obtain ⟨body, hb, rfl⟩ := he
-            have := hs (container Gen.Binn.BINN_LIST xs.length body) (by simp [enc, hb])
-            have hl2 := encList_length xs body hb
-            have hcl := container_length Gen.Binn.BINN_LIST xs.length body
-            obtain ⟨h', hi, _, _⟩ := iterInit_container Gen.Binn.BINN_LIST xs.length body (Or.inl rfl) (by omega) (by omega)
-            exact ⟨_, hi⟩
-          | obj ms =>
-            simp only [enc, Option.map_eq_some_iff] at he
-            obtain ⟨body, hb, rfl⟩ := he
-            have := hs (container Gen.Binn.BINN_OBJECT ms.length body) (by simp [enc, hb])
-            have hl2 := encMembers_length [] ms body hb
-            have hcl := container_length Gen.Binn.BINN_OBJECT ms.length body
-            obtain ⟨h', hi, _, _⟩ := iterInit_container Gen.Binn.BINN_OBJECT ms.length body (Or.inr rfl) (by omega) (by omega)
-            exact ⟨_, hi⟩
-          | _ => simp [isContainer] at hc
-        obtain ⟨hd', hi⟩ := hpi
-        rw [hv]
-        simp only [atBinn2, List.length_cons, Nat.succ_ne_zero, if_false, hi]
-        have : (VS.map viewOf ⟨0, false, none⟩ : VS BVal) = ⟨0, false, none⟩ := rfl
-        rw [this] at hsim
-        rw [hsim, ← hbt]
-        cases hb : btGet v (seg :: rest) with
-        | some r => rw [hb] at o; simp only [Outcome] at o; simp [VS.map, o.2, Except.toOption]
-        | none => rw [hb] at o; simp only [Outcome] at o; simp [VS.map, o.2.1, Except.toOption]
-      · have hr : rfcGet v (seg :: rest) = none := by
-          cases v <;> simp [isContainer] at hc <;> simp [rfcGet, rfcStep]
-        rw [hr]
-        cases v <;> simp [isContainer] at hc <;> simp [viewOf, atBinn2, Except.toOption]
+  obtain ⟨hwr, a, ha, hl⟩ := rfcGet_sub v r jp bs hw he hr
+  have hsr : small r := fun a' ha' => by
+    rw [ha] at ha'; simp only [Option.some.injEq] at ha'; subst ha'
+    have := hs bs he; omega
+  obtain ⟨b', hb', _, h3⟩ := binn_roundtrip r hwr hsr
+  rw [fromNode_eq_viewOf r hwr] at hb'
+  simp only [Option.some.injEq] at hb'; subst hb'
+  rw [hr] at h2
+  cases hat : atBinn2 b jp with
+  | error e => rw [hat] at h2; simp [Except.toOption] at h2
+  | ok h =>
+    rw [hat] at h2
+    simp only [Except.toOption, Option.map_some, Option.some.injEq] at h2
+    subst h2
+    exact ⟨b, _, hb, hat, h3⟩
 
 /-- the same through the string interface (`jbn_at` / `jbl_at`): parse, then look up -/
 theorem at_path_agree (v : JVal) (p : Bytes) (toks : List Bytes) (hw : wf v = true) (hs : small v)
     (hn : ∀ b ∈ p, b ≠ 0) (ht : tildesOk p = true) (hl : ¬ (p.length > 1 ∧ p.getLast? = some 47))
     (hr : rfcSegments p = some toks) (hlen : toks.length ≤ Gen.Binn.JBL_MAX_NESTING_LEVEL)
-    (hj : ∀ seg ∈ toks, segOk seg) :
+    (hstar : ∀ seg ∈ toks, isStar seg = false) :
     ∃ b, fromNode v = some b ∧
       (atTree v p).toOption = rfcGet v toks ∧
       (atBinn b p).toOption = (rfcGet v toks).map viewOf := by
@@ -146,6 +183,7 @@ theorem at_path_agree (v : JVal) (p : Bytes) (toks : List Bytes) (hw : wf v = tr
       · rename_i heq; simp only [List.cons.injEq] at heq; simp [heq.1]
       · simp at hr
   have hp := ptr_parse_spec p hn ht hl hsl
+  have hj : ∀ seg ∈ toks, segOk seg := fun seg hseg => ⟨hstar seg hseg, rfcSegments_no_nul p toks hn hr seg hseg⟩
   obtain ⟨b, hb, h1, h2⟩ := at_agree v toks hw hs hlen hj
   refine ⟨b, hb, ?_, ?_⟩
   · simp only [atTree, hp, hr]; exact h1
